@@ -23,7 +23,7 @@ PROJ = {
     "C07": (["BCAST", "PPREBLOCK", "PBLOCK", "NEWBLOCK", "NEWPREBLOCK", "SIGN", "SETDATA", "VPREBLOCK"], [6, 16]),
     "C08": (["BCAST", "TRESET", "TEXTEND", "PBLOCK", "RECV"], [0, 14]),
     "C09": (["BCAST", "TRESET", "RECV", "PBLOCK"], [0, 9, 10]),
-    "C10": (["TRESET", "TEXTEND", "THEIGHT", "TVIEW"], [0]),
+    "C10": (["TRESET", "TEXTEND", "THEIGHT", "TVIEW"], [0, 11]),
     "C11": (ALLK, list(range(18))),
     "C12": (["REQTX", "GETTX", "BCAST"], [2, 3, 4, 5]),
     "C13": (["BCAST", "SIGN", "SETDATA", "WO"], []),
@@ -31,17 +31,26 @@ PROJ = {
     "C15": (["GETVER", "NONCE", "NOW", "BCAST"], [2, 15]),
     "C16": (["SUB", "GETVER", "TRESET", "THEIGHT", "TVIEW", "BCAST"], [11]),
     # properties with their own deciders that also read the node histories (monitors; a narrow part of the tie)
-    "C06": ([], []),
+    "C06": (["VALS"], [1]),
     "C17": ([], []),
 }
 # histories on which a property's correspondence is evaluated (job name prefixes); None = all
 SCOPE = {"C08": ("sync-c08", "sync-c16"), "C09": ("sync-c09",), "C16": ("sync-c16", "gen", "scen"), "C14": ("shift", "gen", "scen", "sync")}
 
 
+VIEWCHANGE_OPS = ("M 0 ", "M 64 ", "M 65 ", "T ")  # ChangeView, RecoveryRequest, RecoveryMessage, timeouts
+
+
 def relevant(pid, dis, job):
     sc = SCOPE.get(pid)
     if sc and not job.startswith(sc):
+        # C09 rests on the view-change and recovery machinery: its handling of these inputs belongs to the tie on every history
+        if pid == "C09" and dis.get("kind") in ("MISMATCH", "DIFF") and dis.get("op", "").startswith(VIEWCHANGE_OPS):
+            if dis["kind"] == "MISMATCH" or any(s in (0, 8, 9) for s in dis.get("sections", [])):
+                return True
         return False
+    if pid == "C06" and dis.get("kind") == "MISMATCH" and dis.get("op", "")[:2] in ("S ", "R "):
+        return True  # N, F, M and the primary follow from the validator list read at the (re)initialisation
     kinds, secs = PROJ[pid]
     k = dis["kind"]
     if pid == "C11":
